@@ -89,6 +89,8 @@ type Case struct {
 	Pokes []Poke
 	IOX   uint8
 	IOY   uint8
+	// IOFixed: the device answers IOX on every port
+	IOFixed bool
 }
 
 // CaseJSON is the replay-file form of a Case.
@@ -98,6 +100,7 @@ type CaseJSON struct {
 	Pokes map[string]string `json:"pokes,omitempty"`
 	IOX   uint8             `json:"io_x"`
 	IOY   uint8             `json:"io_y"`
+	IOFix bool              `json:"io_fixed,omitempty"`
 	Salt  uint32            `json:"salt"`
 }
 
@@ -189,7 +192,7 @@ func splitFields(s string) []string {
 }
 
 func (cs *Case) toJSON(salt uint32) CaseJSON {
-	j := CaseJSON{Bytes: hexBytes(cs.Bytes), State: stateMap(&cs.S), IOX: cs.IOX, IOY: cs.IOY, Salt: salt}
+	j := CaseJSON{Bytes: hexBytes(cs.Bytes), State: stateMap(&cs.S), IOX: cs.IOX, IOY: cs.IOY, IOFix: cs.IOFixed, Salt: salt}
 	if len(cs.Pokes) > 0 {
 		j.Pokes = map[string]string{}
 		for _, p := range cs.Pokes {
@@ -200,7 +203,7 @@ func (cs *Case) toJSON(salt uint32) CaseJSON {
 }
 
 func caseFromJSON(j *CaseJSON) Case {
-	cs := Case{S: parseStateMap(j.State), Bytes: parseHexBytes(j.Bytes), IOX: j.IOX, IOY: j.IOY}
+	cs := Case{S: parseStateMap(j.State), Bytes: parseHexBytes(j.Bytes), IOX: j.IOX, IOY: j.IOY, IOFixed: j.IOFix}
 	for k, v := range j.Pokes {
 		var a uint16
 		fmt.Sscanf(k, "%04X", &a)
@@ -249,8 +252,8 @@ func (w *Worker) setup(cs *Case) {
 	w.rmem.Poke(cs.S.PC, cs.Bytes...)
 	w.iio.Reset()
 	w.rio.Reset()
-	w.iio.X, w.iio.Y = cs.IOX, cs.IOY
-	w.rio.X, w.rio.Y = cs.IOX, cs.IOY
+	w.iio.X, w.iio.Y, w.iio.Fixed = cs.IOX, cs.IOY, cs.IOFixed
+	w.rio.X, w.rio.Y, w.rio.Fixed = cs.IOX, cs.IOY, cs.IOFixed
 	w.retn.n, w.reti.n = 0, 0
 	toCPU(&cs.S, &w.cpu)
 	w.cpu.Interrupt = nil
